@@ -329,3 +329,91 @@ def to_yaml(nodes: list, extra: Optional[dict] = None, extensions=("semantiva-ex
     if extra:
         doc.update(extra)
     return yaml.safe_dump(doc, sort_keys=False, default_flow_style=False)
+
+
+# --------------------------------------------------------------------------- C03: sweep-centred cases
+def sweep_case(g: "Gen") -> dict:
+    """A pipeline built around one derive.parameter_sweep node (all three wrapped kinds), embedded in a
+    surrounding pipeline, with non-swept parameters placed in node config / context / default."""
+    rng = g.rng
+    kind = rng.choice(["source", "op", "op", "probe", "probe"])
+    ctx: dict = {}
+    list_keys = []
+    for lk in ("seq", "seq2"):
+        if g.chance(0.5):
+            ctx[lk] = [g.val() for _ in range(rng.randint(1, 4))]
+            list_keys.append(lk)
+    if g.chance(0.08):
+        ctx["bad_seq"] = rng.choice(["abc", 3.0, []])
+        list_keys.append("bad_seq")
+    nodes: list = []
+    data = rm.NODATA
+    # ---- prefix
+    if kind == "source":
+        if g.chance(0.3):
+            nodes += [{"processor": "VSrcDefault"}, {"processor": "DataDump"}]
+    else:
+        r = rng.random()
+        if r < 0.4:
+            data = g.val()
+        elif r < 0.8:
+            nodes.append({"processor": "VSrc", "parameters": {"value": g.val()}})
+        else:
+            nodes += [{"processor": "VCollSrc", "parameters": {"n": rng.randint(1, 3)}}, {"processor": "VCollSum"}]
+        if g.chance(0.3):
+            nodes.append({"processor": "VValueProbe", "context_key": rng.choice(["factor", "addend", "scale", "offset", "a", "b"])})
+        if g.chance(0.2):
+            nodes.append({"processor": "VAddNote"})
+    # a producer of a list key earlier in the pipeline (slicer probe) for from_context
+    if kind != "source" and g.chance(0.15):
+        pass
+    name = rng.choice({"source": SWEEP_SRCS, "op": SWEEP_OPS, "probe": SWEEP_PROBES}[kind])
+    comp = rm.COMPONENTS[name]
+    blk = g.sweep_block(name, list_keys)
+    node: dict = {"processor": name, "derive": {"parameter_sweep": blk}}
+    if kind == "probe":
+        node["context_key"] = rng.choice(["plist", "results", "t_values", "a_values"])
+    # non-swept parameters: config / context / default / (rarely) missing
+    for pname, default in comp.params:
+        if pname in blk["parameters"]:
+            if g.chance(0.2):  # node parameter for a computed name: computed value must win
+                node.setdefault("parameters", {})[pname] = 99.0
+            continue
+        r = rng.random()
+        if r < 0.4:
+            node.setdefault("parameters", {})[pname] = g.val()
+            if g.chance(0.3):
+                ctx[pname] = g.val()
+        elif r < 0.7:
+            ctx[pname] = g.val()
+        elif default is rm.REQ and r < 0.93:
+            node.setdefault("parameters", {})[pname] = g.val()
+    nodes.append(node)
+    # ---- suffix
+    vars_ = list(blk["variables"])
+    r = rng.random()
+    if kind == "probe":
+        if r < 0.3:
+            nodes.append({"processor": "VAddDefault"})
+        elif r < 0.55:
+            v = rng.choice(vars_)
+            nodes.append({"processor": "VMul", "derive": {"parameter_sweep": {
+                "parameters": {"factor": "q"}, "variables": {"q": {"from_context": f"{v}_values"}},
+                "collection": "FloatDataCollection"}}})
+        elif r < 0.7:
+            nodes.append({"processor": f"delete:{rng.choice(vars_)}_values"})
+    else:
+        if r < 0.3:
+            nodes.append({"processor": rng.choice(["VCollSum", "FloatCollectionSumOperation"])})
+        elif r < 0.5:
+            nodes.append({"processor": "slice:VAddDefault:FloatDataCollection"})
+        elif r < 0.65:
+            nodes.append({"processor": "slice:VValueProbe:FloatDataCollection", "context_key": "each"})
+        elif r < 0.8:
+            v = rng.choice(vars_)
+            nodes += [{"processor": "VCollSum"},
+                      {"processor": "VScaledProbe", "context_key": "again", "derive": {"parameter_sweep": {
+                          "parameters": {"scale": "q * 1.0"}, "variables": {"q": {"from_context": f"{v}_values"}}}}}]
+        elif r < 0.9:
+            nodes.append({"processor": f"rename:{rng.choice(vars_)}_values:kept"})
+    return {"nodes": nodes, "ctx": ctx, "data": data}
